@@ -62,7 +62,9 @@ def generate(rng, n, tier, stats):
             lo, hi = rng.choice(bs), rng.choice(bs)
         stats['step'][str(step)] += 1
         stats['bound_kind'][('none' if lo is None else 'label' if lo in labs else 'off') + '/' + ('none' if hi is None else 'label' if hi in labs else 'off')] += 1
-        c = {'labels': labs, 'kind': kind, 'lo': lo, 'hi': hi, 'step': step}
+        # 'warm': the axis has answered is_monotonic() before (as after any arithmetic / alignment): the cached answer says
+        # "strictly monotonic, in either direction", not "sorted increasing"
+        c = {'labels': labs, 'kind': kind, 'lo': lo, 'hi': hi, 'step': step, 'warm': rng.random() < 0.4}
         if fam == 'nd':
             # embed in an N-d array, slicing dimension d and indexing the others with other kinds
             nd = rng.randint(2, 3); d = rng.randrange(nd)
@@ -93,7 +95,7 @@ def enumerate_cases(tier, stats):
                 for lo in bs:
                     for hi in bs:
                         for st in STEPS:
-                            out.append({'labels': labs, 'kind': kind, 'lo': lo, 'hi': hi, 'step': st})
+                            out.append({'labels': labs, 'kind': kind, 'lo': lo, 'hi': hi, 'step': st, 'warm': len(out) % 3 == 0})
     if tier != 'thorough':
         out = out[::11]
     stats['family']['grid'] += len(out)
@@ -164,6 +166,9 @@ def oracle(c, res):
     sl = slice(c['lo'], c['hi'], c['step'])
     # 1-D array carrying its own positions as data
     a = D.DimArray(np.arange(len(labs), dtype=float), axes=[D.Axis(_np_labels(c), 'x')])
+    if c.get('warm'):
+        try: a.axes[0].is_monotonic()
+        except Exception: pass
     got = run_impl(lambda: a[sl])
     msg = _cmp(want, got, labs)
     if msg: return '1-D a[%r:%r:%r] on axis %r: %s' % (c['lo'], c['hi'], c['step'], labs, msg)
@@ -176,6 +181,10 @@ def oracle(c, res):
         if m: return 'position slice .ix[%d:%d:%r]: %s' % (i, j, c['step'], m)
     if 'nd' in c:
         nd = c['nd']; arr = mk_array(nd['arr']); d = nd['d']
+        if c.get('warm'):
+            for ax_ in arr.axes:
+                try: ax_.is_monotonic()
+                except Exception: pass
         idx = tuple(sl if i == d else (slice(None) if o == 'full' else o) for i, o in enumerate(nd['other']))
         got = run_impl(lambda: arr[idx])
         ref_pos = []
